@@ -284,7 +284,9 @@ func checkMain(args []string) int {
 	var wg2 sync.WaitGroup
 	// group by package: one go test per (pkg, job files) group
 	for _, r := range runs {
-		if r.err != "" {
+		// a job that ran out of budget is inconclusive, but a counterexample it found before that is
+		// still a counterexample: it is replayed and reported like any other
+		if r.err != "" && !(strings.HasPrefix(r.err, "budget:") && len(r.res.Violations) > 0) {
 			continue
 		}
 		r := r
@@ -304,7 +306,7 @@ func checkMain(args []string) int {
 				cases = append(cases, rc)
 			}
 			nSamples := 0
-			if !r.job.NoReplay {
+			if !r.job.NoReplay && r.err == "" {
 				limit := 12
 				if *tier == "thorough" {
 					limit = 40
@@ -653,28 +655,60 @@ func runGoTest(repo, pkg, overlayPath, replayPath string) (string, error) {
 }
 
 func nativeReplay(root, repo, dir string, r *jobRun, cases []replayCase) (map[string]nativeResult, string, error) {
-	ovp, rp, err := writeReplayDir(root, repo, dir, r, cases)
-	if err != nil {
-		return nil, "", err
-	}
-	out, err := runGoTest(repo, r.spec.Pkg, ovp, rp)
 	results := map[string]nativeResult{}
-	for _, l := range strings.Split(out, "\n") {
-		l = strings.TrimSpace(l)
-		if strings.HasPrefix(l, "GOSYM-RESULT ") {
-			var nr nativeResult
-			if json.Unmarshal([]byte(l[len("GOSYM-RESULT "):]), &nr) == nil {
-				results[nr.ID] = nr
+	remaining := cases
+	var allOut strings.Builder
+	var lastErr error
+	// a panic in a goroutine other than the case's own kills the test process: the case that was
+	// running gets the crash as its result and the remaining cases are run in a fresh process
+	for attempt := 0; attempt < 6 && len(remaining) > 0; attempt++ {
+		ovp, rp, err := writeReplayDir(root, repo, dir, r, remaining)
+		if err != nil {
+			return nil, "", err
+		}
+		out, err := runGoTest(repo, r.spec.Pkg, ovp, rp)
+		allOut.WriteString(out)
+		lastErr = err
+		got := 0
+		for _, l := range strings.Split(out, "\n") {
+			l = strings.TrimSpace(l)
+			if strings.HasPrefix(l, "GOSYM-RESULT ") {
+				var nr nativeResult
+				if json.Unmarshal([]byte(l[len("GOSYM-RESULT "):]), &nr) == nil {
+					results[nr.ID] = nr
+					got++
+				}
 			}
 		}
+		var next []replayCase
+		for _, c := range remaining {
+			if _, ok := results[c.ID]; !ok {
+				next = append(next, c)
+			}
+		}
+		crash := ""
+		if i := strings.Index(out, "\npanic: "); err != nil && i >= 0 {
+			crash = out[i+1:]
+			if j := strings.Index(crash, "\n"); j >= 0 {
+				crash = crash[:j]
+			}
+		}
+		if crash == "" || len(next) == 0 {
+			remaining = next
+			break
+		}
+		results[next[0].ID] = nativeResult{ID: next[0].ID, Panic: "process crashed: " + crash}
+		remaining = next[1:]
 	}
 	if len(results) == 0 {
-		if err == nil {
-			err = fmt.Errorf("no results")
+		if lastErr == nil {
+			lastErr = fmt.Errorf("no results")
 		}
-		return nil, out, err
+		return nil, allOut.String(), lastErr
 	}
-	return results, out, nil
+	// leave the directory describing all cases
+	writeReplayDir(root, repo, dir, r, cases)
+	return results, allOut.String(), nil
 }
 
 // persistReplay stores a confirmed counterexample under /verif/replays and returns the directory.
